@@ -282,7 +282,17 @@ fn transforms(f: &File) -> Vec<(String, File)> {
         if !seen.insert(format!("{:?}", sc)) {
             continue;
         }
-        for val in [Arg::Lit(i(7)), Arg::Q(false, vec![key("a"), key("b")]), Arg::Q(false, vec![key("nosuch"), Part::All, key("x")]), Arg::Call("count".into(), vec![Arg::Q(false, vec![key("a")])])] {
+        // (the last four raise an evaluation error if they are ever evaluated: a variable nobody reads must not be)
+        for val in [
+            Arg::Lit(i(7)),
+            Arg::Q(false, vec![key("a"), key("b")]),
+            Arg::Q(false, vec![key("nosuch"), Part::All, key("x")]),
+            Arg::Call("count".into(), vec![Arg::Q(false, vec![key("a")])]),
+            Arg::Call("parse_int".into(), vec![Arg::Lit(s_("not a number"))]),
+            Arg::Call("parse_int".into(), vec![Arg::Q(false, vec![key("a")])]),
+            Arg::Q(false, vec![Part::Var("nosuchvariable".into())]),
+            Arg::Call("regex_replace".into(), vec![Arg::Lit(s_("x")), Arg::Lit(s_("(")), Arg::Lit(s_("y"))]),
+        ] {
             let mut g = f.clone();
             add_let(&mut g, &sc, Let { name: "unused".into(), val }, true);
             out.push((format!("unused-variable@{}", scope_tag(&sc)), g));
@@ -335,6 +345,14 @@ pub fn run(tier: &str) -> i32 {
             }
         }
     }
+    // keys that exist in two spellings in the data: an interpolated key must select what the key written in place selects
+    // (every spelling exists exactly in the documents added below: the fallback on other spellings, which applies to written
+    // keys only, never comes into play)
+    for (path, lit) in [(["Cfg", "BucketName"], s_("pascal")), (["Cfg", "bucketName"], s_("camel")), (["Cfg", "bucket_name"], s_("snake")), (["Other", "SomeKey"], i(1)), (["Other", "someKey"], i(2)), (["Other", "some_key"], i(3))] {
+        let q: Query = path.iter().map(|p| key(p)).collect();
+        base.push(file1(rule("r0", vec![vec![bin(q.clone(), BinOp::Eq, false, lit.clone())]])));
+        base.push(file1(rule("r0", vec![vec![un(q.clone(), UnOp::Exists, false)], vec![bin(q, BinOp::Eq, true, lit)]])));
+    }
     // `some` variables with partly unresolved values referenced from two rules
     let docs = docs_quick();
     let mut docs2 = docs.clone();
@@ -348,6 +366,8 @@ pub fn run(tier: &str) -> i32 {
         m(vec![("a", m(vec![("b", s("")), ("a", l(vec![]))]))]),
         m(vec![("a", l(vec![m(vec![("b", l(vec![]))]), m(vec![("b", l(vec![i(1)]))])]))]),
     ]);
+    docs2.push(m(vec![("Cfg", m(vec![("BucketName", s_("pascal")), ("bucketName", s_("camel")), ("bucket_name", s_("snake"))])), ("Other", m(vec![("SomeKey", i(1)), ("someKey", i(2)), ("some_key", i(3))]))]));
+    docs2.push(m(vec![("Cfg", m(vec![("bucket_name", s_("snake")), ("bucketName", s_("camel")), ("BucketName", s_("pascal"))])), ("Other", m(vec![("some_key", i(3)), ("SomeKey", i(1)), ("someKey", i(2))]))]));
     let djs: Vec<String> = docs2.iter().map(|d| d.json()).collect();
     let nbase = base.len();
     let res = crate::par::run(nbase, rep.seed as u64, crate::par::deadline_secs(if thorough { 3000 } else { 45 }), Acc::new, |k, acc| {
